@@ -573,11 +573,12 @@ def check_c20(run: Run, prog: Program) -> None:
         "`n == k` closed form of det is the Leibniz polynomial of the k x k determinant; (E12.adj) the 2x2 index table of adjugate is the "
         "adjugate, the minor path transposes once, negates exactly the positions with odd i + j for every n and pairs each minor with its own "
         "row and column; (E12.inv) the closed form of inv is adjugate(A) / det(A) broadcast over the matrix axes after a singularity test; "
-        "(E12.hat) the 3D index table of hat_matrix is the Levi-Civita contraction the documentation shows. NOT decided: which inputs reach which "
-        "branch (thresholds), the numpy fall-backs, the epsilon-diagram branch of adjugate, null_space/orth, roots (a triple root is known to be "
-        "lost, DESIGN section 6 D7), is_multiple, matmul/matvec/outer."
+        "(E12.hat) the 3D index table of hat_matrix is the Levi-Civita contraction the documentation shows; (E12.roots) the algebraic branches of roots "
+        "return roots (the returned expression annihilates the polynomial of its branch, with sqrt(u)^2 = u; the value returned for a triple root "
+        "satisfies x^3 = -d/a). NOT decided: which inputs reach which branch (thresholds), the numpy fall-backs, the epsilon-diagram branch of adjugate, "
+        "null_space/orth, the trigonometric branches of roots and whether repeated roots are listed with their multiplicity, is_multiple, matmul/matvec/outer."
     )
-    polyform.rule_det(run, prog), polyform.rule_adjugate(run, prog), polyform.rule_inv(run, prog), polyform.rule_hat(run, prog)
+    polyform.rule_det(run, prog), polyform.rule_adjugate(run, prog), polyform.rule_inv(run, prog), polyform.rule_hat(run, prog), polyform.rule_roots(run, prog)
     n = sum(1 for o in run.obligations if o.rule.startswith("E12."))
     run.stats["closed_form_obligations"] = n
     run.floor("closed-form obligations (instances found, decided or not)", n, 4)
